@@ -28,6 +28,7 @@ RULE = (
 )
 ASSUMPTIONS = [
     "the configuration is zero-padded to the 6144-byte patch area (the statement's 'padded to the patch area'); with random padding only soundness is judged",
+    "configurations of any size up to the patch area are generated; where the key is not the unique most frequent aligned group of the masked area for any of its lengths (little padding, or a longer run of another byte) a failure to recover is the known finding 'guardrails-key-frequency-heuristic', a success is accepted",
     "an environmental key is reported up to XOR-stream equivalence (a periodic key may be reported by its period)",
     "beacon single-byte key 0x2e and guard key 0x8a (the defaults the library documents as the only supported ones)",
 ]
@@ -42,11 +43,45 @@ def stream_equiv(a, b, n=6144):
     return P.rxk(bytes(n), a) == P.rxk(bytes(n), b)
 
 
+def min_period(k):
+    for p in range(1, len(k) + 1):
+        if len(k) % p == 0 and k[:p] * (len(k) // p) == k:
+            return p
+    return len(k)
+
+
+def key_is_top_ngram(padded, envkey):
+    """Mechanism predicate for the known finding 'guardrails-key-frequency-heuristic': is there a key length L (a
+    multiple of the key's period, 2..256) for which the key itself is the unique most frequent aligned L-byte group of
+    the key-masked patch area?  Then frequency analysis identifies the key without ambiguity."""
+    import collections
+
+    g = P.rxk(padded, envkey)
+    p = min_period(envkey)
+    for L in range(2, 257):
+        if L % p:
+            continue
+        kl = (envkey * (L // len(envkey) + 1))[:L] if L % len(envkey) else envkey * (L // len(envkey))
+        kl = (envkey[:p] * (L // p))
+        cnt = collections.Counter(g[i : i + L] for i in range(0, len(g) - L + 1, L))
+        top = cnt.most_common(2)
+        if top and top[0][0] == kl and (len(top) == 1 or top[1][1] < top[0][1]):
+            return True
+    return False
+
+
 def build_payload(case_rng, par):
     import random
 
     rng = random.Random(par["seed"])
     settings, model = C.build_http_config(rng, keyname="rsa1024_a", extras=par["extras"])
+    if par.get("bulk"):
+        # enlarge the configuration: one extra pointer-type setting filled with a repeated byte or random bytes, so that
+        # only par["bulk"]["padding"] NULs of the patch area remain
+        cur = len(tlv.encode(settings))
+        n = max(6144 - cur - 6 - par["bulk"]["padding"], 1)
+        val = bytes([par["bulk"]["byte"]]) * n if par["bulk"]["byte"] is not None else rng.randbytes(n)
+        settings = list(settings) + [(par["bulk"].get("index", 1234), 3, val)]
     cfg = tlv.encode(settings)
     opts = [(o, OPTS[o][1], par["optvals"][str(o)]) for o in par["opts"]]
     kw = {}
@@ -128,6 +163,12 @@ def check_case(case, ctx):
     if neg in (None,):
         ctx.mon("recover.exact")
         if c is None:
+            if not key_is_top_ngram(ginfo["padded"], par["envkey"]):
+                ctx.violation("recover.exact",
+                              f"configuration not recovered: the environmental key is not the unique most frequent aligned group of the masked area "
+                              f"(key length {len(par['envkey'])}, configuration uses {len(cfg)} of 6144 bytes, bulk {par.get('bulk')})", case,
+                              key="guardrails-key-frequency-heuristic")
+                return
             ctx.violation("recover.exact", f"protected configuration not recovered: {err} (key length {len(par['envkey'])}, opts {par['opts']}, container {par['container']}, xorenc {par['xorenc']})", case)
             return
         g = c.guardrails
@@ -182,12 +223,20 @@ def check_case(case, ctx):
             return
     ctx.ok(fp=payload, case={"par": {k: v for k, v in par.items()}, "payload_len": len(payload)}, classes=(
         f"neg:{neg}", f"keylen:{'2-8' if len(par['envkey']) <= 8 else '9-64' if len(par['envkey']) <= 64 else '65-256'}",
-        f"opts:{'+'.join(map(str, par['opts']))}", f"container:{par['container']}", f"xorenc:{par['xorenc']}", f"keykind:{par['keykind']}", f"decoy:{par.get('decoy')}"))
+        f"opts:{'+'.join(map(str, par['opts']))}", f"container:{par['container']}", f"xorenc:{par['xorenc']}", f"keykind:{par['keykind']}", f"decoy:{par.get('decoy')}",
+        "bulk:none" if not par.get("bulk") else f"bulk:{'random' if par['bulk']['byte'] is None else 'run'}"))
 
 
 def gen_key(rng, length):
-    kind = rng.choice(["ascii", "random", "random", "periodic"])
-    if kind == "ascii":
+    kind = rng.choice(["ascii", "random", "random", "periodic", "lead7", "constant"])
+    if kind == "lead7":
+        # seven or more equal leading bytes, among them 0x2e ^ (0x69 | 0x2e | 0x00): the masked area then starts like a
+        # configuration under one of the default single-byte keys
+        lead = bytes([rng.choice([0x47, 0x2E, 0x00, 0x47, rng.randrange(256)])]) * min(length, rng.choice([7, 7, 8, 12]))
+        k = (lead + bytes(rng.randrange(0, 256) for _ in range(length)))[:length]
+    elif kind == "constant":
+        k = bytes([rng.choice([0x47, 0x2E, 0x41, rng.randrange(1, 256)])]) * length
+    elif kind == "ascii":
         alpha = b"ABCDEFGHIJKLMNOPQRSTUVWXYZabcdefghijklmnopqrstuvwxyz0123456789-."
         k = bytes(rng.choice(alpha) for _ in range(length))
     elif kind == "periodic" and length >= 4:
@@ -210,6 +259,10 @@ def gen_par(rng, keylen, neg=None):
 
     optvals = {"5": hv(), "6": hv(), "7": hv(), "8": rng.choice([rng.randbytes(4), b"\x0a\x00\x00\x05", b"\xc0\xa8\x01\x00", rng.randbytes(2) + b"\x00\x00"])}
     envkey, kind = gen_key(rng, keylen)
+    while neg == "guard-truncated" and kind in ("lead7", "constant"):
+        # without its guard configuration such a masked area IS a block that starts with the configuration header under a
+        # default single-byte key: the ordinary extraction (C01) rightly returns it, nothing of Guardrails is left to judge
+        envkey, kind = gen_key(rng, keylen)
     container = rng.choice(["raw", "raw", "pe"])
     par = {
         "seed": rng.getrandbits(32), "extras": rng.random() < 0.8, "opts": opts, "optvals": optvals, "envkey": envkey, "keykind": kind,
@@ -217,6 +270,9 @@ def gen_par(rng, keylen, neg=None):
         "arch": rng.choice(["x86", "x64"]), "xorenc": rng.random() < 0.2, "stub": rng.choice([0, 57, 300]),
         "decoy": rng.choice([None, None, None, "marker", "copy"]) if neg is None else None,
     }
+    if neg is None and rng.random() < 0.2:
+        par["bulk"] = {"padding": rng.choice([0, 2, keylen, 2 * keylen - 1, 2 * keylen + 1, 3 * keylen, 600, rng.randrange(0, 1200)]),
+                       "byte": rng.choice([None, None, 0x41, 0x00, 0xFF])}
     if neg == "checksum":
         par["delta"] = rng.choice([1, -1, 2, 1000, -2])
     elif neg == "guard-truncated":
